@@ -35,7 +35,7 @@ DELIVERABLES, in {wt}/seed/ :
   patch.diff  - `git diff -- src` of your change; must apply with `git apply` to the clean HEAD of the worktree
   demo.rs     - the demonstration
   meta.json   - {{"property": "{pid}", "summary": "<what the change is and why it looks innocent>", "needs": "<what exactly is needed for it to manifest>", "demo": {{"file": "...", "kind": "integration test | in-crate module", "placement": "<where to copy it and what line to add where>", "run": "<command>"}}, "ran": ["<each command you ran to confirm (a)-(c) and the demo with/without the change, and its outcome>"]}}
-Leave the worktree with the patch NOT applied (`git checkout -- src`), and with the demo file removed from tests/ or src/ (only seed/ and target/ may remain untracked). You MUST actually run: the demo without the change (passes), the demo with the change (fails), and the full existing suite with the change (176 pass). Report failures honestly; if after serious effort you cannot find a change satisfying all of (a)-(d), say so.
+NEVER use `git stash` (the stash is shared by every worktree of this repository and other people are working in sibling worktrees): to switch between the changed and unchanged source, save your diff to seed/patch.diff and use `git checkout -- src` / `git apply seed/patch.diff`. Leave the worktree with the patch NOT applied (`git checkout -- src`), and with the demo file removed from tests/ or src/ (only seed/ and target/ may remain untracked). You MUST actually run: the demo without the change (passes), the demo with the change (fails), and the full existing suite with the change (176 pass). Report failures honestly; if after serious effort you cannot find a change satisfying all of (a)-(d), say so.
 
 Your final message: a short summary of the change, what it needs to manifest, and the confirmed results of the three runs.""")
 if mech:
